@@ -49,12 +49,14 @@ from .values import (
     SInt,
     SReal,
     SStr,
+    CompDictV,
     SymListV,
     SymSet,
     Unit,
     View,
     as_const,
     bool_term,
+    deref,
     int_term,
     is_intlike,
     mk_bool,
@@ -320,6 +322,7 @@ def make_builtins(I):
 
 
 def isinst(I, v, cls):
+    v = deref(v)
     if isinstance(cls, tuple):
         rs = [isinst(I, v, c) for c in cls]
         if any(r is True for r in rs):
@@ -391,6 +394,7 @@ def as_rope(v):
 
 
 def length(I, v, node=None):
+    v = deref(v)
     if isinstance(v, (str, tuple)):
         return len(v)
     if isinstance(v, ListV):
@@ -405,7 +409,18 @@ def length(I, v, node=None):
     if isinstance(v, SeqV):
         return mk_int(v.n)
     if isinstance(v, SymListV):
-        return mk_int(ropes.zadd(v.prefix.n, len(v.items)))
+        n = v.prefix.n
+        for it in v.items:
+            n = ropes.zadd(n, it.n if isinstance(it, SeqV) else 1)
+        return mk_int(as_const(n))
+    if isinstance(v, RangeV):
+        lo, hi = int_term(v.lo), int_term(v.hi)
+        if v.step != 1:
+            raise OutsideSubset("len of a range with a step")
+        d = as_const(ropes.zsub(hi, lo))
+        if isinstance(d, int):
+            return max(d, 0)
+        return mk_int(z3.If(zint(d) > 0, zint(d), z3.IntVal(0)))
     if isinstance(v, ItemsView):
         return length(I, v.d, node)
     if isinstance(v, ObjV):
@@ -419,6 +434,7 @@ def length(I, v, node=None):
 
 def iterate(I, v, node=None):
     """python generator over the elements of an interpreter value"""
+    v = deref(v)
     if isinstance(v, tuple):
         yield from v
         return
@@ -479,6 +495,7 @@ def iterate(I, v, node=None):
 
 
 def unpack_iterable(I, v, n, node=None):
+    v = deref(v)
     if isinstance(v, tuple):
         items = list(v)
     elif isinstance(v, SeqV) and not isinstance(v.n, int):
@@ -498,6 +515,7 @@ def unpack_iterable(I, v, n, node=None):
 
 def eq(I, a, b, node=None):
     """python == as bool | z3 Bool"""
+    a, b = deref(a), deref(b)
     if a is None or b is None:
         if isinstance(a, Opaque) or isinstance(b, Opaque):
             o = a if isinstance(a, Opaque) else b
@@ -1025,6 +1043,7 @@ def _slice_ints(I, s, n, node):
 
 
 def getitem(I, obj, idx, node=None):
+    obj = deref(obj)
     if isinstance(obj, tuple) or isinstance(obj, ListV):
         items = obj if isinstance(obj, tuple) else obj.items
         if isinstance(idx, slice):
@@ -1061,6 +1080,8 @@ def getitem(I, obj, idx, node=None):
         return seq_getitem(I, obj, idx, node)
     if isinstance(obj, SymListV):
         return seq_getitem(I, symlist_as_seq(I, obj), idx, node)
+    if isinstance(obj, RangeV) and not isinstance(idx, slice):
+        return mk_int(zint(int_term(obj.lo)) + zint(int_term(idx)) * obj.step)
     if isinstance(obj, str):
         if isinstance(idx, slice):
             lo, hi = _slice_ints(I, idx, len(obj), node)
@@ -1149,8 +1170,12 @@ def seq_getitem(I, s, idx, node):
         if isinstance(newn, int) and newn <= 32:
             items = [at(as_const(ropes.zadd(lo_, j))) for j in range(newn)]
             return tuple(items) if s.kind == "tuple" else ListV(items)
-        return SeqV(newn, lambda i: at(as_const(ropes.zadd(lo_, i))), s.kind)
+        ident = ("slice", s.ident, str(z3.simplify(zint(lo_))), str(z3.simplify(zint(newn)))) if s.ident is not None else None
+        return SeqV(newn, lambda i: at(as_const(ropes.zadd(lo_, i))), s.kind, ident=ident)
     i = int_term(idx)
+    if getattr(I.ghost, "raw_index", False):
+        # inside a quantifier: the sequence is read as a total function of the index
+        return s.at(i)
     if ropes._cmp(ctx, i, "<", 0):
         i = as_const(ropes.zadd(i, s.n))
     if ropes._cmp(ctx, i, "<", 0) or ropes._cmp(ctx, i, ">=", s.n):
@@ -1159,9 +1184,23 @@ def seq_getitem(I, s, idx, node):
 
 
 def symlist_as_seq(I, l, kind="list"):
-    if not l.items:
-        return SeqV(l.prefix.n, l.prefix.at, kind)
-    return seq_concat(I, SeqV(l.prefix.n, l.prefix.at, "tuple"), tuple(l.items), kind)
+    cur = SeqV(l.prefix.n, l.prefix.at, kind, ident=l.prefix.ident)
+    if isinstance(l.prefix.n, int) and l.prefix.n == 0:
+        cur = ()
+    run = []
+    for it in l.items:
+        if isinstance(it, SeqV):
+            if run:
+                cur = cur + tuple(run) if isinstance(cur, tuple) else seq_concat(I, cur, tuple(run), kind)
+                run = []
+            cur = seq_concat(I, cur, it, kind)
+        else:
+            run.append(it)
+    if run:
+        cur = cur + tuple(run) if isinstance(cur, tuple) else seq_concat(I, cur, tuple(run), kind)
+    if isinstance(cur, tuple):
+        return SeqV(len(cur), lambda i, cur=cur: _tuple_at(I, cur, i), kind)
+    return cur
 
 
 def seq_concat(I, a, b, kind="tuple"):
@@ -1179,12 +1218,27 @@ def seq_concat(I, a, b, kind="tuple"):
         return a
     ctx = I.ctx
 
+    def sid(x):
+        if isinstance(x, tuple):
+            return ("tuple",) + tuple(I.ghost.fingerprint(e) for e in x)
+        return x.ident
+
+    ia, ib = sid(a), sid(b)
+    ident = ("cat", ia, ib) if ia is not None and ib is not None else None
+
     def at(i):
+        if not isinstance(i, int) and not isinstance(b, tuple) and not isinstance(a, tuple):
+            # both parts are total functions of the index: if they yield opaque values,
+            # combine them at term level (no fork; usable under quantifiers)
+            x = fa(i)
+            y = fb(as_const(ropes.zsub(i, na)))
+            if isinstance(x, Opaque) and isinstance(y, Opaque) and x.t.sort() == y.t.sort():
+                return Opaque(z3.If(zint(i) < zint(na), x.t, y.t), x.tag)
         if ropes._cmp(ctx, i, "<", na):
             return fa(i)
         return fb(as_const(ropes.zsub(i, na)))
 
-    return SeqV(as_const(ropes.zadd(na, nb)), at, kind)
+    return SeqV(as_const(ropes.zadd(na, nb)), at, kind, ident=ident)
 
 
 def _tuple_at(I, x, i):
@@ -1240,7 +1294,7 @@ def map_delitem(I, m, key, node=None):
 
 
 def value_getattr(I, obj, name, node):
-    if isinstance(obj, (ListV, SymListV, DictV, SetV, SBytes, BytearrayV, SStr, str, tuple, MapV, SeqV, LoggerV, LockV, StructV, ItemsView, CoroV, bytes, int, SInt)):
+    if isinstance(obj, (ListV, SymListV, CompDictV, DictV, SetV, SBytes, BytearrayV, SStr, str, tuple, MapV, SeqV, LoggerV, LockV, StructV, ItemsView, CoroV, bytes, int, SInt)):
         if isinstance(obj, StructV):
             if name == "size":
                 return obj.size
@@ -1267,6 +1321,7 @@ def call_value(I, f, args, kwargs, node):
 
 def call_method(I, obj, name, args, kwargs, node):
     ctx = I.ctx
+    obj = deref(obj)
     if isinstance(obj, LoggerV):
         if name == "getChild":
             return LoggerV()
@@ -1292,7 +1347,14 @@ def call_method(I, obj, name, args, kwargs, node):
             obj.items.append(args[0])
             return None
         if name == "extend":
-            obj.items.extend(list(iterate(I, args[0], node)))
+            src = deref(args[0])
+            if isinstance(src, SymListV):
+                src = symlist_as_seq(I, src)
+            if isinstance(src, SeqV) and not isinstance(src.n, int):
+                # the list becomes one with a symbolic part: a SymListV takes over
+                obj.sym = SymListV(SeqV(0, lambda i: None, "tuple", ident="empty"), list(obj.items) + [src])
+                return None
+            obj.items.extend(list(iterate(I, src, node)))
             return None
         if name == "pop":
             if not obj.items:
@@ -1329,9 +1391,35 @@ def call_method(I, obj, name, args, kwargs, node):
             obj.items.append(args[0])
             return None
         if name == "extend":
-            obj.items.extend(list(iterate(I, args[0], node)))
+            src = args[0]
+            if isinstance(src, SymListV):
+                src = symlist_as_seq(I, src)
+            if isinstance(src, SeqV) and not isinstance(src.n, int):
+                obj.items.append(src)
+            else:
+                obj.items.extend(list(iterate(I, src, node)))
             return None
         raise OutsideSubset(f"list.{name} on a list with a symbolic prefix at {I.where(node)}")
+    if isinstance(obj, CompDictV):
+        if name == "get":
+            key = args[0]
+            default = args[1] if len(args) > 1 else None
+            ctx = I.ctx
+            if ctx.choose(2) == 0:
+                return default
+            t = ctx.fresh_int("compdict.idx")
+            ctx.assume(z3.And(t >= zint(int_term(obj.lo)), t < zint(int_term(obj.hi))))
+            if not ctx.feasible():
+                raise PathAbort()
+            e = eq(I, obj.keyfn(SInt(t)), key, node)
+            if e is False:
+                raise PathAbort()
+            if e is not True:
+                ctx.assume(e)
+                if not ctx.feasible():
+                    raise PathAbort()
+            return obj.valfn(SInt(t))
+        raise OutsideSubset(f"dict.{name} on a dict comprehension over a symbolic range")
     if isinstance(obj, tuple):
         if name == "index":
             for i, y in enumerate(obj):
@@ -1669,9 +1757,9 @@ def instantiate_special(I, cls, args, kwargs, node):
     if n == "tuple":
         if not args:
             return ()
-        v = args[0]
+        v = deref(args[0])
         if isinstance(v, SeqV):
-            return SeqV(v.n, v.at, "tuple")
+            return SeqV(v.n, v.at, "tuple", ident=v.ident)
         if isinstance(v, SymListV):
             return symlist_as_seq(I, v, "tuple")
         return tuple(iterate(I, v, node))
